@@ -25,6 +25,7 @@ inductive Var
   | argsGet | argsPost | argsPath | args | argsNames | argsGetNames | argsPostNames
   | reqHeaders | reqHeadersNames | tx | matchedVar | matchedVarName | matchedVars | matchedVarsNames
   | argsCombinedSize
+  | reqUriRaw | reqUri | reqFilename | reqBasename | queryString | reqMethod | reqLine | reqProtocol
   | unknown
 deriving Repr, DecidableEq
 
@@ -37,6 +38,10 @@ def Var.name : Var → Bytes
   | .matchedVar => Bytes.ofString "MATCHED_VAR" | .matchedVarName => Bytes.ofString "MATCHED_VAR_NAME"
   | .matchedVars => Bytes.ofString "MATCHED_VARS" | .matchedVarsNames => Bytes.ofString "MATCHED_VARS_NAMES"
   | .argsCombinedSize => Bytes.ofString "ARGS_COMBINED_SIZE"
+  | .reqUriRaw => Bytes.ofString "REQUEST_URI_RAW" | .reqUri => Bytes.ofString "REQUEST_URI"
+  | .reqFilename => Bytes.ofString "REQUEST_FILENAME" | .reqBasename => Bytes.ofString "REQUEST_BASENAME"
+  | .queryString => Bytes.ofString "QUERY_STRING" | .reqMethod => Bytes.ofString "REQUEST_METHOD"
+  | .reqLine => Bytes.ofString "REQUEST_LINE" | .reqProtocol => Bytes.ofString "REQUEST_PROTOCOL"
   | .unknown => Bytes.ofString "UNKNOWN"
 
 structure KV where
@@ -180,7 +185,20 @@ deriving Repr, DecidableEq
 
 /-! ## transaction state -/
 
+/-- the single-valued variables ProcessURI sets (transaction.go:822) -/
+structure ReqLine where
+  uriRaw : Bytes := []
+  uri : Bytes := []
+  filename : Bytes := []
+  basename : Bytes := []
+  query : Bytes := []
+  method : Bytes := []
+  line : Bytes := []
+  protocol : Bytes := []
+deriving Repr, DecidableEq
+
 structure Tx where
+  rl : ReqLine := {}
   argsGet : CMap := {}
   argsPost : CMap := {}
   argsPath : CMap := {}
@@ -231,12 +249,21 @@ def keyedGet (tx : Tx) (v : Var) (key : Bytes) : Option Bytes :=
   | some m => (m.get key).head?
   | none => none
 
+/-- the value of a request-line variable (collections.Single) -/
+def singleOf (tx : Tx) : Var → Option Bytes
+  | .reqUriRaw => some tx.rl.uriRaw | .reqUri => some tx.rl.uri | .reqFilename => some tx.rl.filename
+  | .reqBasename => some tx.rl.basename | .queryString => some tx.rl.query | .reqMethod => some tx.rl.method
+  | .reqLine => some tx.rl.line | .reqProtocol => some tx.rl.protocol
+  | _ => none
+
 def expandTok (tx : Tx) : MTok → Bytes
   | .text t => t
   | .var v key orig =>
     match v with
     | .matchedVar => tx.matchedVar
     | .matchedVarName => tx.matchedVarName
+    | .reqUriRaw | .reqUri | .reqFilename | .reqBasename | .queryString | .reqMethod | .reqLine | .reqProtocol =>
+      (singleOf tx v).getD []
     | _ => match keyedGet tx v key with
       | some x => x
       | none => orig
@@ -296,6 +323,8 @@ def select (tx : Tx) (v : Var) (key : Bytes) : List MD :=
     -- sized.go:58 size(): Σ len(key)+len(value) over ARGS_GET and ARGS_POST, original-case keys
     let sz (m : CMap) : Nat := (m.all.map fun e => e.key.length + e.value.length).sum
     [⟨.argsCombinedSize, [], natToBytes (sz tx.argsGet + sz tx.argsPost)⟩]
+  | .reqUriRaw | .reqUri | .reqFilename | .reqBasename | .queryString | .reqMethod | .reqLine | .reqProtocol =>
+    [⟨v, [], (singleOf tx v).getD []⟩]                          -- Single.FindAll
   | .unknown => []
   | _ => findMap (mapOf tx v) v key
 
